@@ -68,7 +68,8 @@ class Ctx(object):
         self.assumptions = []
         self.classes = set()
         self.notes = []
-        self.max_violation_files = 25
+        self.max_violation_files = 60       # overall; at most 4 replay files per failing clause so that every clause shows
+        self.per_clause = {}
         self.all_items = []
 
     # ---- coverage accounting
@@ -115,7 +116,9 @@ class Ctx(object):
         if e is not None:
             self.known_hit.setdefault(e["id"], [0, e])[0] += 1
             return "known"
-        if len(self.violations) < self.max_violation_files:
+        cl = str(item.get("clause"))
+        self.per_clause[cl] = self.per_clause.get(cl, 0) + 1
+        if self.per_clause[cl] <= 4 and len(set(p for p, _ in self.violations)) < self.max_violation_files:
             blob = json.dumps({"property": self.prop, "item": item, "replay": replay}, sort_keys=True, indent=1)
             h = hashlib.sha1(blob.encode()).hexdigest()[:12]
             d = os.path.join(OUT, "replay", self.prop)
